@@ -434,6 +434,23 @@ def cases(tier, rng):
     bounds = [None] + list(range(start - dt - 1, stop + dt + 2, 1 if not quick else 2))
     for a, b, c, d in itertools.product(bounds, repeat=4):
         yield {"stream": "small-scope", "op": "get", "kind": "cont", "start": start, "dt": dt, "n": n, "windows": [[a, b], [c, d]], "via": ["slice", "slice"]}
+    # nested small scope with relative time strings at the second level (begin/end of the intermediate slice)
+    rel = [None, {"s": "0ns"}, {"s": "1ns"}, {"s": "2ns"}, {"s": "-1ns"}, {"s": "-2ns"}, {"s": "3ns"}]
+    for kind, g in (("tags", [1, 2, 4]), ("tags", [3, 5, 5, 9]), ("ts", [1, 2, 4]), ("cont", None)):
+        if kind == "cont":
+            base = {"kind": "cont", "start": 1, "dt": 2, "n": 3}
+            lo, hi = -2, 9
+        else:
+            base = {"kind": kind, "ts": g}
+            lo, hi = g[0] - 2, g[-1] + 3
+        b1 = [None] + list(range(lo, hi + 1, 1 if not quick else 1))
+        cnt = 0
+        for a, b in itertools.product(b1, b1):
+            for c, d in itertools.product(rel, rel):
+                cnt += 1
+                if quick and cnt % 3:
+                    continue
+                yield dict(base, stream="small-scope", op="get", windows=[[a, b], [c, d]], via=["slice", "slice"])
     # masks: all masks on 4 samples, plus length mismatches
     for m in itertools.product([False, True], repeat=4):
         yield {"stream": "small-scope", "op": "mask", "kind": "ts", "ts": [2, 4, 4, 9], "mask": list(m)}
@@ -478,7 +495,8 @@ def cases(tier, rng):
                 c = sub.randint(0, 9)
                 if c == 0:
                     w.append(None)
-                elif c == 1 and len(windows) == 0:
+                elif c == 1:
+                    # at nested levels the string is relative to the intermediate slice's own begin/end
                     w.append({"s": gen_timestring_for(sub, ts, dt)})
                 elif c <= 7:
                     w.append(sub.choice(bv))
